@@ -542,6 +542,17 @@ fn prop(t: &mut Tape, st: &mut Stats) -> Result<(), Failure> {
             (Err(e), Ok(_)) => return Err(fail("twin", &r, format!("struct with Option<Value> fails ({e}) where the Spanned twin succeeds"))),
         }
     }
+    // --- error locations delivered through serde are the same ranges (a type mismatch provoked at a
+    // chosen path, every node on the way asked for plainly or through Option / newtype / struct)
+    if !r.text.starts_with('\u{feff}') && t.chance(1, 2) {
+        st.class("serde-error-location");
+        super::c15::typed_probe(&r, t, st).map_err(|mut f| {
+            if f.sub != "harness" {
+                f.sub = format!("serde-error-{}", f.sub);
+            }
+            f
+        })?;
+    }
     if nontrivial {
         st.nontrivial(fnv64(text.as_bytes()));
     }
